@@ -718,6 +718,7 @@ pub fn check_blocking(c: &BlockingCase, cx: &mut Cx) -> vcore::Res {
     let huge = c.recv == RecvState::Live && c.huge != 0;
     cx.class_if(huge, "timeout:far-end-of-duration");
     cx.class_if(huge && !c.flush && c.prefill >= c.cap, "timeout:far-end-of-duration/blocking-send-on-full-channel");
+    cx.class_if(!c.flush && c.prefill >= c.cap && c.recv != RecvState::Live && c.recv != RecvState::Dropped, &format!("blocking-send-on-full-channel-that-stays-full/{}", c.ctx.name()));
 
     let call = {
         let sender = sender.clone();
@@ -752,6 +753,9 @@ pub fn check_blocking(c: &BlockingCase, cx: &mut Cx) -> vcore::Res {
         ctx.run(call)
     });
     let res = join_within(h, Duration::from_secs(30));
+    // "blocking variants never discard anything silently; they enqueue or hand the item back": every item of this case
+    // went in through try_send (prefill) or the blocking send, so the truncation counter must not have moved
+    let truncated = sample(&sender).truncated;
     // release everything
     {
         *latch.open.lock().unwrap() = true;
@@ -759,6 +763,10 @@ pub fn check_blocking(c: &BlockingCase, cx: &mut Cx) -> vcore::Res {
     }
     drop(parked_receiver);
     let verdict = match res {
+        Some(Ok(_)) if truncated > 0 && c.recv != RecvState::Dropped => Err(Fail::new(
+            "C09/blocking-send-discarded-queued-items",
+            format!("{c:?}: only try_send and the blocking call were used, yet queue_full_truncated = {truncated}: a blocking call cleared the pending queue"),
+        )),
         None => Err(Fail::new(
             "C08/blocking-call-deadlocked",
             format!("{c:?}: call still blocked 30 s after it was made (timeout {} ms)", c.ms),
